@@ -97,6 +97,9 @@ func (rl *ReconciledLoader) SetRemoteOnline(online bool) {
 		return
 	}
 	if rl.open && !wasOpen {
+		// anything still queued (or kept for a retry) was sent for an earlier incarnation of the request,
+		// the one that was cancelled when the request was paused: the new response starts over from the root
+		rl.remoteQueue.clear()
 		// if we're opening a remote request, we need to reverify against what we've loaded so far
 		rl.verifier = traversalrecord.NewVerifier(rl.traversalRecord)
 	}
